@@ -789,7 +789,11 @@ theorem sim_genPowers (deg : Nat) (lazy : Bool) :
     Sim (e.t = 0) k (fun _ _ => True) (genPowers e deg lazy) (genPowers (absEnv e) deg lazy) := by
   unfold genPowers
   simp only [absEnv]
-  apply sim_bind ((sim_genPower e hk _).1 _ _); intro _ _ _
+  apply sim_bind (Ra := fun _ _ => True)
+  · apply sim_forM
+    intro i
+    exact (sim_genPower e hk _).1 _ _
+  intro _ _ _
   apply sim_forM
   intro i
   apply sim_ite Iff.rfl
@@ -823,7 +827,10 @@ theorem sim_evaluateFrom (polys polys' : List (List Int)) (hne : polys ≠ []) (
   · intro _; exact sim_evalFromPowerBasis e mapping mapping' hx.lvl (hsub _ _) _ _
   · intro _
     apply sim_guard'
-    · intro hc; left; have := hx.lvl; omega
+    · intro hc; left
+      simp only [absEnv, Bool.and_eq_true, Bool.not_eq_eq_eq_not, Bool.not_true, decide_eq_true_eq] at hc ⊢
+      refine ⟨hc.1, ?_⟩
+      have := hx.lvl; omega
     · apply sim_bind (sim_genPowers e hk _ _); intro _ _ _
       intro st st' hst o' s' hex
       have hsd : simDepth (absEnv e) ((polys.headD []).length - 1) = simDepth e ((polys.headD []).length - 1) := rfl
